@@ -233,6 +233,21 @@ class _Inliner(object):
             return None       # compound: handled through their bodies; calls in their headers are left alone
         call = calls[0]
         key, takes_self = self._match(call, cls)
+        if isinstance(st, ast.Assign) and isinstance(st.value, ast.ListComp) and st.value.elt is call and len(st.value.generators) == 1 \
+                and not st.value.generators[0].ifs and len(st.targets) == 1 and isinstance(st.targets[0], ast.Name):
+            # X = [h(e, ...) for e in ITER]  ->  X = []; for e in ITER: t = h(e, ...); X.append(t)
+            gen = st.value.generators[0]
+            self.counter += 1
+            tmp = "_h%d_item" % self.counter
+            init = ast.Assign(targets=[ast.Name(id=st.targets[0].id, ctx=ast.Store())], value=ast.List(elts=[], ctx=ast.Load()))
+            inner = ast.Assign(targets=[ast.Name(id=tmp, ctx=ast.Store())], value=call)
+            app = ast.Expr(value=ast.Call(func=ast.Attribute(value=ast.Name(id=st.targets[0].id, ctx=ast.Load()), attr="append", ctx=ast.Load()),
+                                          args=[ast.Name(id=tmp, ctx=ast.Load())], keywords=[]))
+            loop = ast.For(target=gen.target, iter=gen.iter, body=[inner, app], orelse=[])
+            for x in (init, inner, app, loop):
+                ast.copy_location(x, st)
+                ast.fix_missing_locations(x)
+            return [init, loop]
         try:
             if isinstance(st, ast.Return) and st.value is call:
                 def mk(v):
